@@ -231,8 +231,9 @@ type frameRec struct {
 	used     uint64
 	class    string
 	errStr   string
-	drop     bool // failed before a frame was entered (balance / depth): not a frame of the specification
-	pseudo   bool // SELFDESTRUCT pseudo frame emitted by opSuicide
+	drop     bool   // failed before a frame was entered (balance / depth): not a frame of the specification
+	pseudo   bool   // SELFDESTRUCT pseudo frame emitted by opSuicide
+	endMem   []byte // -mem: first memCells words of the frame's memory at its STOP / RETURN / REVERT
 }
 
 type pend struct {
@@ -245,7 +246,8 @@ type tracer struct {
 	stack   []int         // indices of open frames; len(stack) = depth of the running frame
 	pending map[int]*pend // depth -> CALL*/CREATE executed at that depth whose pushed result has not been seen yet
 	flags   [][4]any
-	created []common.Address // CREATE targets in entry order: N1, N2, ..
+	created []common.Address // CREATE / CREATE2 targets in entry order: N1, N2, ..
+	memDump int              // -mem: number of memory words to snapshot when a frame ends (0 = off)
 }
 
 func classify(err error) (string, string) {
@@ -258,6 +260,8 @@ func classify(err error) (string, string) {
 		return "static", err.Error()
 	case errors.Is(err, vm.ErrOutOfGas):
 		return "oog", err.Error()
+	case errors.Is(err, vm.ErrReturnDataOutOfBounds):
+		return "rdoob", err.Error()
 	case strings.HasPrefix(err.Error(), "invalid opcode"):
 		return "invalid", err.Error()
 	}
@@ -294,9 +298,15 @@ func (t *tracer) CaptureStart(_ *vm.EVM, from, to common.Address, _ bool, _ []by
 }
 func (t *tracer) CaptureEnd(_ []byte, used uint64, err error) { t.exit(used, err) }
 func (t *tracer) CaptureEnter(typ vm.OpCode, from, to common.Address, _ []byte, gas uint64, _ *big.Int) {
-	if typ == vm.CREATE {
-		t.created = append(t.created, to)
-		if p := t.pending[len(t.stack)]; p != nil && p.kind == "CREATE" {
+	if typ == vm.CREATE || typ == vm.CREATE2 {
+		known := false
+		for _, x := range t.created {
+			known = known || x == to
+		}
+		if !known { // a CREATE that failed before its constructor ran does not consume the address
+			t.created = append(t.created, to)
+		}
+		if p := t.pending[len(t.stack)]; p != nil && p.kind == typ.String() {
 			p.to = to
 		}
 	}
@@ -305,9 +315,14 @@ func (t *tracer) CaptureEnter(typ vm.OpCode, from, to common.Address, _ []byte, 
 }
 func (t *tracer) CaptureExit(_ []byte, used uint64, err error) { t.exit(used, err) }
 
-func (t *tracer) CaptureState(_ uint64, op vm.OpCode, _, _ uint64, _ *vm.Memory, stack *vm.Stack, _ *vm.Contract, _ []byte, depth int, err error) {
+func (t *tracer) CaptureState(_ uint64, op vm.OpCode, _, _ uint64, memory *vm.Memory, stack *vm.Stack, _ *vm.Contract, _ []byte, depth int, err error) {
 	if err != nil {
 		return // the deferred report of a failing instruction
+	}
+	if t.memDump > 0 && (op == vm.STOP || op == vm.RETURN || op == vm.REVERT) && len(t.stack) > 0 {
+		snap := make([]byte, 32*t.memDump)
+		copy(snap, memory.Data())
+		t.frames[t.stack[len(t.stack)-1]].endMem = snap
 	}
 	if p, ok := t.pending[depth]; ok {
 		flag := 0
@@ -320,8 +335,8 @@ func (t *tracer) CaptureState(_ uint64, op vm.OpCode, _, _ uint64, _ *vm.Memory,
 	switch op {
 	case vm.CALL, vm.CALLCODE, vm.DELEGATECALL, vm.STATICCALL:
 		t.pending[depth] = &pend{kind: op.String(), to: common.Address(stack.Back(1).Bytes20())}
-	case vm.CREATE:
-		t.pending[depth] = &pend{kind: "CREATE"}
+	case vm.CREATE, vm.CREATE2:
+		t.pending[depth] = &pend{kind: op.String()}
 	}
 }
 
@@ -528,12 +543,16 @@ func (w *world) run(b *Behaviour, seq int) map[string]any {
 func main() {
 	in := flag.String("in", "", "behaviours exported by TLC (ndjson)")
 	outp := flag.String("out", "", "observed outcomes (ndjson)")
+	mem := flag.Bool("mem", false, "the behaviours are programs of EvmMemory.tla (memory / return data / precompiles), see mem.go")
 	flag.Parse()
 	if *in == "" || *outp == "" {
 		harnessErr("usage: evmframes -in <file> -out <file>")
 	}
 	for _, n := range []string{"A", "B", "C", "X"} {
 		named[n] = thor.BytesToAddress([]byte("c10-frames-" + n))
+	}
+	for i, n := range []string{"P1", "P2", "P3", "P4"} {
+		named[n] = thor.BytesToAddress([]byte{byte(i + 1)}) // ecrecover, sha256, ripemd160, identity
 	}
 	w := newWorld()
 	named["O"] = w.origin
@@ -555,12 +574,22 @@ func main() {
 		if len(line) == 0 {
 			continue
 		}
-		var b Behaviour
-		if err := json.Unmarshal(line, &b); err != nil {
-			harnessErr("bad behaviour line %d: %v", n+1, err)
+		var obs map[string]any
+		if *mem {
+			var b MemBehaviour
+			if err := json.Unmarshal(line, &b); err != nil {
+				harnessErr("bad behaviour line %d: %v", n+1, err)
+			}
+			n++
+			obs = w.runMem(&b)
+		} else {
+			var b Behaviour
+			if err := json.Unmarshal(line, &b); err != nil {
+				harnessErr("bad behaviour line %d: %v", n+1, err)
+			}
+			n++
+			obs = w.run(&b, n)
 		}
-		n++
-		obs := w.run(&b, n)
 		js, err := json.Marshal(obs)
 		if err != nil {
 			harnessErr("%v", err)
